@@ -22,7 +22,8 @@ out.append("unexpected_cfgs = { level = \"allow\", check-cfg = ['cfg(cosmian_cov
 text = '\n'.join(out)
 # add shuttle to [dependencies]
 text = text.replace('[dependencies]', '[dependencies]\nshuttle = "0.9"', 1)
-os.makedirs('/verif/build/shadow', exist_ok=True)
-p = '/verif/build/shadow/Cargo.toml'
+root = os.environ.get('VERIF_ROOT', '/verif')
+os.makedirs(root + '/build/shadow', exist_ok=True)
+p = root + '/build/shadow/Cargo.toml'
 if not os.path.exists(p) or open(p).read() != text:
     open(p, 'w').write(text)
